@@ -48,8 +48,12 @@ RULE = ("cases = (lattice, mesh, NB, NW, level pattern, class of (frozen window,
         "(cases with neither only exercise the isometry clause); the coverage block counts separately the classes "
         "whose frozen / outer edge cuts an engineered multiplet")
 ASSUMPTIONS = [
-    "data: eigenvectors of a seeded 3-4 orbital tight-binding model on meshes (2,1,1),(2,2,1),(3,1,1) "
-    "(+(2,2,2) thorough); spectra from an explicit level alphabet (gaps 0, 0.005, >=0.3), not from the model",
+    "data: eigenvectors of a seeded 3-4 orbital tight-binding model, orthorhombic cell, meshes (2,1,1),(2,2,1),(3,1,1) "
+    "(thorough adds reduced pattern lists on mesh (2,2,2), a triclinic cell with 12 b-vectors, and 5 bands); spectra "
+    "from an explicit level alphabet (gaps 0, 0.005, >=0.3; k-points fall into two classes shifted by 0.3), "
+    "not from the model; quick uses 6 level patterns per NB, thorough all of them",
+    "reduced w.r.t. DESIGN: num_iter 10 only in the thorough tier; DESIGN's 'each band energy +-delta' edges coincide "
+    "with the gap midpoints for this level alphabet",
     "window edges: -inf, +inf and midpoints between consecutive distinct energies (every other position selects the "
     "same bands as one of these); an edge exactly equal to a band energy (tie) is not in the alphabet",
     "only window pairs satisfying wannierise's own preconditions are run (frozen subset of outer, "
